@@ -90,8 +90,16 @@ def run_case(fk, c, M, rng, idx):
            "trail_w": len(trail), "stock_end": stock_end(body), "case": c, "hex": body.hex()[:160]}
     if c["kind"] == "bytes":
         src = body
-    elif c["kind"] == "seekable":
-        src = io.BytesIO(data)
+    elif c["kind"] in ("seekable", "file", "buffered"):
+        if c["kind"] == "seekable":
+            src = io.BytesIO(data)
+        elif c["kind"] == "file":
+            path = os.path.join(TMP[0], f"s{idx}.bin")
+            with open(path, "wb") as fh:
+                fh.write(data)
+            src = open(path, "rb")
+        else:
+            src = io.BufferedReader(io.BytesIO(data))
         src.seek(c["offset"])
     else:
         raw = io.BytesIO(data)
@@ -102,7 +110,7 @@ def run_case(fk, c, M, rng, idx):
         p = fk.Pickled.load(src)
         d = p.dumps()
         first.update(ok=True, dumps_len=len(d), dumps_is_slice=d == parts[0])
-        if c["kind"] == "seekable":
+        if c["kind"] in ("seekable", "file", "buffered"):
             first["pos_after"] = src.tell()
         if c["kind"] != "bytes":
             rest = src.read()
@@ -110,9 +118,13 @@ def run_case(fk, c, M, rng, idx):
     except Exception as e:  # noqa: BLE001
         first["exc"] = type(e).__name__
     rec["first"] = first
+    if c["kind"] == "file":
+        src.close()
+        os.remove(path)
     stack = {"ran": c["trail"] == "none", "ok": False, "n": -1, "part_lens": [], "parts_are_slices": False, "concat_is_input": False}
     if stack["ran"]:
-        src2 = body if c["kind"] == "bytes" else (io.BytesIO(body) if c["kind"] == "seekable" else NoSeek(body))
+        src2 = body if c["kind"] == "bytes" else (NoSeek(body) if c["kind"] == "nonseekable" else
+                                                  (io.BufferedReader(io.BytesIO(body)) if c["kind"] == "buffered" else io.BytesIO(body)))
         try:
             sp = fk.StackedPickle.load(src2)
             ds = [q.dumps() for q in sp]
@@ -123,8 +135,12 @@ def run_case(fk, c, M, rng, idx):
     return rec
 
 
+TMP = [None]
+
+
 def run(ctx):
     import fickling.fickle as fk
+    TMP[0] = ctx.tmp
     n = 2 if ctx.quick else 3
     cfg = open(os.path.join(tlc.SPEC, "Stream.cfg.tmpl")).read().replace("@N@", str(n))
     cases = tv.generate(ctx, "Stream", cfg, "CASE", workers=4, name=f"gen:Stream:k{n}")
